@@ -400,8 +400,21 @@ def _n5_function(fn: ast.AST):
                     # the definition dominates them in every iteration
                     last = max(j for j, st in enumerate(later) if any(id(x) in {id(y) for y in ast.walk(st)} for x in loads))
                     roots = _roots(s.value)
-                    reads_heap = any(isinstance(x, (ast.Attribute, ast.Subscript, ast.Call)) for x in ast.walk(s.value))
-                    if any(_kills(st, roots, reads_heap, v) for st in later[:last + 1]):
+                    # roots whose *state* the expression reads (attribute / item / non-pure method): a call on them or with them may
+                    # change the value.  A root that is only used bare or as the receiver of a pure (string-like) method is a value.
+                    heap_roots: Set[str] = set()
+                    for x in ast.walk(s.value):
+                        if isinstance(x, (ast.Attribute, ast.Subscript)):
+                            par_is_pure_call = False
+                            if isinstance(x, ast.Attribute) and x.attr in PURE_METHODS:
+                                par_is_pure_call = True
+                            if not par_is_pure_call:
+                                base = x
+                                while isinstance(base, (ast.Attribute, ast.Subscript)):
+                                    base = base.value
+                                if isinstance(base, ast.Name):
+                                    heap_roots.add(base.id)
+                    if any(_kills(st, roots - heap_roots, False, v) or _kills(st, heap_roots, True, v) for st in later[:last + 1]):
                         continue
                     ids = {id(x) for x in loads}
 
@@ -556,6 +569,17 @@ def _n9(tree: ast.AST):
                 b[i] = ast.copy_location(ast.If(test=ast.copy_location(call, st), body=S, orelse=[]), st)
 
 
+class _NotCmp(ast.NodeTransformer):
+    """not (a in b) -> a not in b;  not (a == b) -> a != b;  not (a is b) -> a is not b;  not not x stays (truthiness)."""
+    def visit_UnaryOp(self, n):
+        self.generic_visit(n)
+        if isinstance(n.op, ast.Not) and isinstance(n.operand, ast.Compare) and len(n.operand.ops) == 1:
+            new = _simplify_not(n)
+            if new is not n:
+                return ast.copy_location(new, n)
+        return n
+
+
 def normalise_local_more(tree: ast.AST):
     _n3y(tree)
     _n8(tree)
@@ -565,6 +589,7 @@ def normalise_local_more(tree: ast.AST):
     _n3(tree)
     _n7(tree)
     _n8b(tree)
+    _NotCmp().visit(tree)
 
 
 import os as _os
@@ -861,6 +886,7 @@ def _p2(trees: Dict[str, ast.Module]) -> int:
                             return c
                         changed = True
                         n_inlined += 1
+                        r[0]._looked_through = True       # type: ignore[attr-defined]
                         return _Subst(mp).visit(_copy.deepcopy(shape[1]))
                 ExprInline().visit(fn)
                 # statement helpers at statement level
@@ -877,6 +903,44 @@ def _p2(trees: Dict[str, ast.Module]) -> int:
                             elif isinstance(st, (ast.Assign, ast.Return)) and isinstance(st.value, ast.Call):
                                 call = st.value
                             r = resolve(mname, cls, call) if call is not None else None
+                            if r is None and isinstance(st, (ast.Expr, ast.Assign, ast.Return, ast.Raise)):
+                                # a statement helper called inside the statement's expression (e.g. after its temporary was
+                                # inlined): its statements go in front, its result takes the call's place
+                                done = False
+                                for sub in ast.walk(st):
+                                    if not isinstance(sub, ast.Call) or sub is call:
+                                        continue
+                                    r2 = resolve(mname, cls, sub)
+                                    if r2 is None or r2[0] is fn:
+                                        continue
+                                    shape2 = _helper_shape(r2[0])
+                                    if shape2 is None or shape2[0] != 'stmts' or shape2[2] is None:
+                                        continue
+                                    mp2 = bind(r2[0], sub, r2[1])
+                                    if mp2 is None:
+                                        continue
+                                    stored2 = {x.id for s_ in shape2[1] for x in ast.walk(s_) if isinstance(x, ast.Name) and isinstance(x.ctx, (ast.Store, ast.Del))}
+                                    if stored2 & set(mp2):
+                                        continue
+                                    pre = [_Subst(mp2).visit(_copy.deepcopy(s_)) for s_ in shape2[1]]
+                                    rv2 = _Subst(mp2).visit(_copy.deepcopy(shape2[2]))
+
+                                    class Rep(ast.NodeTransformer):
+                                        def visit_Call(self_, c):
+                                            if c is sub:
+                                                return rv2
+                                            self_.generic_visit(c)
+                                            return c
+                                    b[i] = Rep().visit(st)
+                                    b[i:i] = pre
+                                    r2[0]._looked_through = True       # type: ignore[attr-defined]
+                                    changed = True
+                                    n_inlined += 1
+                                    i += len(pre) + 1
+                                    done = True
+                                    break
+                                if done:
+                                    continue
                             if r is not None and r[0] is not fn:
                                 shape = _helper_shape(r[0])
                                 mp = bind(r[0], call, r[1]) if shape is not None and shape[0] == 'stmts' else None
@@ -898,6 +962,7 @@ def _p2(trees: Dict[str, ast.Module]) -> int:
                                         elif isinstance(st, ast.Return):
                                             new.append(ast.copy_location(ast.Return(value=None), st))
                                         b[i:i + 1] = new
+                                        r[0]._looked_through = True       # type: ignore[attr-defined]
                                         changed = True
                                         n_inlined += 1
                                         i += len(new)
